@@ -168,6 +168,8 @@ class ManualDevice(sd.Device):
         super().__init__(*a, **kw)
         self.manual = False
         self.pending = []
+        self.emitted = []            # (kind, packet, wire index) of every packet emitted in manual mode
+        self.n_ans = 0
         self.on_tx = None
         self.on_down = None
 
@@ -182,14 +184,24 @@ class ManualDevice(sd.Device):
     def answer(self):
         pk = self.pending.pop(0)
         for r in self.services[sv.PORT_PARAM].handle(pk):
-            self.on_down('ans', r)
+            self.n_ans += 1
+            self.emitted.append(('ans', r, self.n_ans))
+            self.on_down('ans', r, self.n_ans)
             self._deliver(self.link, r, 'deliver')
+
+    def duplicate(self, j):
+        """the link delivers a second copy of the j-th emitted packet (an answer)"""
+        kind, r, w = self.emitted[j - 1]
+        self.emitted.append(('dup', r, w))
+        self.on_down('dup', r, w)
+        self._deliver(self.link, r, 'dup')
 
     def notify(self, i, value):
         ent = self.services[sv.PORT_PARAM].table.entries[i]
         ent['value'] = bytes(value)
         r = self.services[sv.PORT_PARAM].notify(i)
-        self.on_down('ntf', r)
+        self.emitted.append(('ntf', r, 0))
+        self.on_down('ntf', r, 0)
         self._deliver(self.link, r, 'deliver')
 
 
@@ -312,14 +324,11 @@ def execute(sc, mutant=None, want_projection=False):
         cf.packet_received.add_callback(on_rx)
 
         dev.on_tx = lambda pk, n: ev.append({'e': 'tx', 'chan': pk.channel, 'data': list(pk.data)})
-        wire_n = [0]
-
-        def on_down(kind, r):
-            if kind == 'ans':
-                wire_n[0] += 1
-                ev.append({'e': 'ans', 'chan': r.channel, 'data': list(r.data), 'w': wire_n[0]})
-            else:
+        def on_down(kind, r, w):
+            if kind == 'ntf':
                 ev.append({'e': 'ntf', 'chan': r.channel, 'data': list(r.data)})
+            else:
+                ev.append({'e': kind, 'chan': r.channel, 'data': list(r.data), 'w': w})
         dev.on_down = on_down
 
         def cached(name):
@@ -490,7 +499,21 @@ def execute(sc, mutant=None, want_projection=False):
             if key == 'ntf':
                 n = sc['notifs'][st.get('nn', 0)]
                 return {'e': 'step', 'a': 'DevNotify', 'u': 0, 'n': {'p': n[0], 'v': list(n[1])}}
+            if key == 'dup':
+                return {'e': 'step', 'a': 'DevDup', 'u': 0, 'i': next_dup()}
             return {'e': 'step', 'a': 'Other', 'u': 0, 'what': key}
+
+        dups = sc.get('dups', [])
+
+        def next_dup():
+            """down index of the answer the next duplicate copies, or 0 if it cannot happen yet"""
+            if st.get('nd', 0) >= len(dups):
+                return 0
+            how, x = dups[st.get('nd', 0)]
+            answers = [j + 1 for j, e in enumerate(dev.emitted) if e[0] == 'ans']
+            if how == 'down':
+                return x if x in answers else 0
+            return answers[x % len(answers)] if answers else 0
 
         def enabled_keys():
             runnable, _timed = s.enabled()
@@ -510,6 +533,8 @@ def execute(sc, mutant=None, want_projection=False):
                 keys.append('ans')
             if st.get('nn', 0) < len(sc['notifs']):
                 keys.append('ntf')
+            if next_dup():
+                keys.append('dup')
             for rec in runnable:
                 if rec not in known and rec.pending is not None and rec.pending.ready():
                     keys.append('t:' + rec.name)
@@ -588,6 +613,10 @@ def execute(sc, mutant=None, want_projection=False):
                 n = sc['notifs'][st.get('nn', 0)]
                 st['nn'] = st.get('nn', 0) + 1
                 dev.notify(n[0] - 1, n[1])
+            elif key == 'dup':
+                j = next_dup()
+                st['nd'] = st.get('nd', 0) + 1
+                dev.duplicate(j)
             else:
                 s.step_thread(s.by_name[key[2:]])
             if want_projection:
@@ -746,11 +775,56 @@ def gen_scenario(rng, big=False, misc_unique=False):
     kind = rng.choice(['random', 'random', 'pct', 'pct', 'burst', 'fifo', 'slowdev', 'slowdev', 'slowdev', 'slowdisp'])
     sc = {'params': params, 'updcbs': rand_updcbs(rng, params), 'users': users, 'notifs': notifs,
           'policy': [kind, rng.randrange(1 << 30)], 'crc': rng.randrange(1 << 16)}
+    if rng.random() < 0.3:
+        # a retransmitting link delivers some answers twice; the protocol has no sequence numbers, so such a
+        # run keeps the release patterns of its requests distinct (a second copy of an old answer cannot be
+        # told from the answer to a later request with the same pattern)
+        distinct_patterns(users)
+        sc['dups'] = [['sel', rng.randrange(1000)] for _ in range(rng.randint(1, 3))]
     if rng.random() < 0.02:
         # the firmware changes a value by itself while the client is still connecting
         q = rng.choice([i + 1 for i, p in enumerate(params) if p['pers']])
         sc['connect_ntf'] = [[q, rand_typed(params[q - 1]['type'], rng)]]
     return sc
+
+
+def distinct_patterns(users):
+    """replace every request whose release pattern (read/write: the parameter; misc: command + parameter) was
+    already used in this scenario by a get_value"""
+    seen = set()
+    for u in users:
+        for op in u:
+            if op[0] == 'get':
+                continue
+            key = ('v', op[1]) if op[0] in ('set', 'read') else (op[0], op[1])
+            if key in seen:
+                op[0], op[2] = 'get', None
+                if op[1] == 0:
+                    op[1] = 1
+            seen.add(key)
+
+
+def dup_scenarios():
+    """every kind of answer delivered twice: right away, after the next request went out, at the very end"""
+    out = []
+    params = [P_(0x09, pers=True, group=1, init=[7, 1], default=[9, 0]), P_(0x09, pers=True, group=1, init=[5, 0], default=[3, 0]),
+              P_(0x06, group=2, init=[0, 0, 192, 63], default=[0, 0, 128, 63])]
+    firsts = [['read', 1, None], ['set', 1, ival(513)], ['getstate', 1, None], ['store', 1, None], ['clear', 1, None],
+              ['getdefault', 1, None], ['set', 3, fval(2.5)]]
+    seconds = [['read', 2, None], ['getstate', 2, None], ['set', 2, ival(77)]]
+    for f in firsts:
+        for snd in [None] + seconds:
+            for two in (False, True):
+                if two and snd is None:
+                    continue
+                ops = [f] + ([snd] if snd else [])
+                users = [[f], [snd]] if two else [ops]
+                for pol in (['fifo', 0], ['random', 3], ['slowdisp', 5], ['burst', 2]):
+                    for nd in (1, 2):
+                        out.append({'params': copy.deepcopy(params), 'updcbs': [[1, 'param', 1], [2, 'all', 0]],
+                                    'users': copy.deepcopy(users), 'notifs': [], 'dups': [['sel', 0]] * nd,
+                                    'policy': pol, 'crc': 11})
+    return out
 
 
 def codec_scenarios(rng):
@@ -854,7 +928,7 @@ WITNESS_SAME = dict(WITNESS, users=[[['getstate', 1, None], ['store', 1, None], 
 
 # --------------------------------------------------------------------------- TLC behaviours -> real code
 ACTOR = {'UBegin': 'u', 'UPut': 'u', 'UpdGet': 'upd', 'UpdLock': 'upd', 'UpdSend': 'upd', 'UpdDone': 'upd',
-         'DevAnswer': 'ans', 'DevNotify': 'ntf', 'DispRecv': 'disp', 'DispRel': 'disp'}
+         'DevAnswer': 'ans', 'DevNotify': 'ntf', 'DevDup': 'dup', 'DispRecv': 'disp', 'DispRel': 'disp'}
 
 
 def repr_to_val(v):
@@ -873,7 +947,7 @@ def scenario_from_behaviour(beh):
                'stored': list(cf['stored0'][i]) or None} for i in range(cf['np'])]
     nu = len(beh[0][1]['ust'])
     users = [[] for _ in range(nu)]
-    notifs, script, acts = [], [], []
+    notifs, dups, script, acts = [], [], [], []
     for label, _st in beh[1:]:
         name, args = tlc.parse_label(label)
         acts.append(name)
@@ -886,10 +960,13 @@ def scenario_from_behaviour(beh):
         elif name == 'DevNotify':
             notifs.append([args[0]['p'], list(args[0]['v'])])
             script.append('ntf')
+        elif name == 'DevDup':
+            dups.append(['down', args[0]])
+            script.append('dup')
         else:
             script.append(ACTOR[name])
     sc = {'params': params, 'updcbs': [[c['id'], c['scope'], c['ref']] for c in cf['updcbs']], 'users': users,
-          'notifs': notifs, 'policy': ['script', script], 'crc': 7}
+          'notifs': notifs, 'dups': dups, 'policy': ['script', script], 'crc': 7}
     return sc, acts
 
 
@@ -1011,7 +1088,8 @@ def _packet_cb_variant(variant):
                     upd.updated_callback(pk)
                     if variant == 'twice':
                         upd.updated_callback(pk)
-                    upd._lock_pattern = None
+                    if variant != 'no_reset':
+                        upd._lock_pattern = None
                     try:
                         upd.wait_lock.release()
                     except Exception:
@@ -1095,7 +1173,7 @@ MUTANTS = {
     'wrap_out_of_range': mut_wrap, 'readonly_not_refused': mut_ro, 'lifo_queue': mut_lifo, 'no_wait_lock': mut_nowait,
     'release_on_any_packet': _packet_cb_variant('release_any'),
     'update_callbacks_twice': _packet_cb_variant('twice'), 'read_status_not_stripped': _packet_cb_variant('no_strip'),
-    'stale_cache': mut_stale_cache, 'uint16_as_int16': mut_u16_signed, 'float_truncated': mut_float_trunc,
+    'lock_pattern_not_reset': _packet_cb_variant('no_reset'), 'stale_cache': mut_stale_cache, 'uint16_as_int16': mut_u16_signed, 'float_truncated': mut_float_trunc,
     'read_wrong_index': mut_wrong_index,
 }
 
@@ -1296,8 +1374,8 @@ def signature(t, clause, at):
     ev = t['ev'][:max(at, 0)]
     calls = {e['rid']: e for e in ev if e['e'] == 'call'}
     issues = [e for e in ev if e['e'] == 'issue']
-    downs = [e for e in ev if e['e'] in ('ans', 'ntf')]
-    if clause in ('ReplyToOtherRequest', 'ReplyNotDelivered', 'ReplyDeliveredTwice'):
+    downs = [e for e in ev if e['e'] in ('ans', 'ntf', 'dup')]
+    if clause in ('ReplyToOtherRequest', 'ReplyNotDelivered', 'ReplyDeliveredTwice', 'DuplicateDelivered'):
         # the dispatch that failed: the last completed one before `at`
         rxi = [i for i, e in enumerate(ev) if e['e'] == 'rx']
         last = t['ev'][at - 1] if 0 < at <= len(t['ev']) else {}
@@ -1309,6 +1387,8 @@ def signature(t, clause, at):
             return clause + '/outside-dispatch'
         cbs = [e for e in ev[lo:hi] if e['e'] == 'cb']
         d = downs[k - 1] if k - 1 < len(downs) else None
+        if clause == 'DuplicateDelivered':
+            return '%s/%s' % (clause, {1: 'read-reply', 2: 'write-reply', 3: 'misc-reply'}.get(d['chan'], '?') if d else '?')
         if d is None or d['e'] != 'ans':
             return '%s/%s' % (clause, 'notification' if d else 'unknown-packet')
         req = issues[d['w'] - 1] if d['w'] - 1 < len(issues) else None
@@ -1340,7 +1420,7 @@ def signature(t, clause, at):
 VARIANT_CFG = {'none': ('TRACE_ParamProto.cfg', 'SIM_ParamProto.cfg'),              # the repaired code
                'cmdOnly': ('TRACE_ParamProto_cmdOnly.cfg', 'SIM_ParamProto_cmdOnly.cfg'),   # pre-fix trees
                'cmdId': ('TRACE_ParamProto_cmdId.cfg', 'SIM_ParamProto_cmdId.cfg')}
-BUG_CFGS = ['cmdOnly', 'cmdId', 'noWait', 'lifo', 'wrap', 'roSend', 'anyRelease', 'cbTwice']
+BUG_CFGS = ['cmdOnly', 'cmdId', 'noWait', 'lifo', 'wrap', 'roSend', 'anyRelease', 'cbTwice', 'noReset']
 
 
 def detect_variant():
@@ -1362,7 +1442,8 @@ def detect_variant():
 
 def _tlc_jobs(tier):
     jobs = [('check', 'MC_ParamProto_%s.cfg' % ('quick' if tier == 'quick' else 'thorough'), 8 if tier == 'quick' else 6),
-            ('check', 'MC_ParamProto_codec.cfg', 2)]
+            ('check', 'MC_ParamProto_codec.cfg', 2),
+            ('check', 'MC_ParamProto_dup_quick.cfg' if tier == 'quick' else 'MC_ParamProto_dup.cfg', 4)]
     if tier == 'thorough':
         jobs.append(('check', 'MC_ParamProto_thorough4.cfg', 6))
         jobs.append(('check', 'MC_ParamProto_asis.cfg', 4))
@@ -1379,10 +1460,12 @@ def _run_tlc_job(job):
 
 
 def _sim_job(args):
-    sim_cfg, nsim, seed = args
-    rs, behs = tlc.simulate('MC_ParamProto.tla', sim_cfg, num=nsim, depth=70, seed=seed, timeout=2400)
-    rs.output = rs.output[-1500:]
-    return ('sim', sim_cfg, nsim), (rs, [compact_behaviour(b) for b in behs if len(b) > 2])
+    out = []
+    for (sim_cfg, nsim, seed) in args:
+        rs, behs = tlc.simulate('MC_ParamProto.tla', sim_cfg, num=nsim, depth=70, seed=seed, timeout=2400)
+        rs.output = rs.output[-1500:]
+        out.append((sim_cfg, nsim, rs, [compact_behaviour(b) for b in behs if len(b) > 2]))
+    return out
 
 
 def _tlc_helper(tier, sim_args, conn):
@@ -1446,7 +1529,7 @@ def report_violations(out, bad, scs_by_id):
         rp['policy'] = ['script', t['detail']['schedule']]
         lo = max(0, at - 14)
         out.violation(signature(t, clause, at), clause,
-                      {'event_index': at, 'users': sc['users'], 'notifs': sc['notifs'], 'connect_ntf': sc.get('connect_ntf'),
+                      {'event_index': at, 'users': sc['users'], 'notifs': sc['notifs'], 'dups': sc.get('dups'), 'connect_ntf': sc.get('connect_ntf'),
                        'types': t['cfg']['type'], 'events_before': t['ev'][lo:at], 'schedule': t['detail']['schedule']},
                       {'scenario': rp})
 
@@ -1471,6 +1554,9 @@ def main(tier, seed, replay=None):
         'wire order must equal that order',
         '"answered before the next is sent": the device has emitted its answer before it receives the next request '
         '(device answers after an arbitrary, scheduler-chosen delay)',
+        'duplicated answers (a retransmitting link): a second copy of an answer must reach nobody and change nothing; judged in runs '
+        'whose requests have pairwise distinct release patterns (without sequence numbers a copy of an old answer cannot be told '
+        'from the answer to a later request for the same parameter / command)',
         'unsolicited value-changed packets: nothing positive is demanded (the cache may or may not follow them); they must not '
         'reach a reply callback, must not release the outstanding request, and an update callback run for them must carry their value',
         'a reply is "delivered to a request" when the callback given with that request runs while that reply is dispatched; '
@@ -1500,7 +1586,10 @@ def main(tier, seed, replay=None):
     import multiprocessing as mp
     ctx = mp.get_context('fork')
     pipe_r, pipe_w = ctx.Pipe(duplex=False)
-    helper = ctx.Process(target=_tlc_helper, args=(tier, (sim_cfg, nsim, seed % 100000), pipe_w))
+    sims = [(sim_cfg, nsim, seed % 100000)]
+    if variant == 'none':            # behaviours with duplicated answers (distinct release patterns)
+        sims.append(('SIM_ParamProto_dup.cfg', nsim // 2, (seed + 1) % 100000))
+    helper = ctx.Process(target=_tlc_helper, args=(tier, sims, pipe_w))
     helper.start()
     pipe_w.close()
     try:
@@ -1509,7 +1598,13 @@ def main(tier, seed, replay=None):
         pairs = pair_scenarios()
         if tier == 'quick':
             pairs = pairs[:len(pairs) // 3]
-        scs = codec_scenarios(rng) + pairs + msc + connect_ntf_scenarios()
+        dsc = dup_scenarios()
+        if tier == 'quick':
+            dsc = dsc[::3]
+        dval_ = [sc for sc in dsc if sc['users'][0][0][0] in ('read', 'set')]
+        dmisc = [sc for sc in dsc if sc['users'][0][0][0] not in ('read', 'set')]
+        ssc = msc + dval_[::(4 if tier == 'quick' else 2)] + dmisc[::(12 if tier == 'quick' else 6)]   # what the mutants run on
+        scs = codec_scenarios(rng) + pairs + msc + dsc + connect_ntf_scenarios()
         nrand = 500 if tier == 'quick' else 16000
         for i in range(nrand):
             scs.append(gen_scenario(random.Random(rng.randrange(1 << 60)), big=(i % 4 == 0), misc_unique=(i % 3 != 0)))
@@ -1517,7 +1612,7 @@ def main(tier, seed, replay=None):
         lap('execute scenarios')
         # 4a. in-memory mutants on the sensitivity scenarios
         mnames = sorted(MUTANTS)
-        mtraces = common.pmap(_exec_job, [(sc, name) for name in mnames for sc in msc], init=_init, maxtasks=400)
+        mtraces = common.pmap(_exec_job, [(sc, name) for name in mnames for sc in ssc], init=_init, maxtasks=400)
         # 4a'. control (pre-fix trees only): the same machinery on an in-memory emulation of the two repairs must accept
         ctraces = []
         if variant != 'none':
@@ -1531,8 +1626,10 @@ def main(tier, seed, replay=None):
             raise tlc.TLCError(sim)
         lap('wait for simulation')
         # 2. spec -> code: behaviours of the design spec (the variant the code implements) replayed step by step
-        rs, behs = sim[1]
-        out.add_tlc('%s (-simulate num=%d depth=70)' % (sim_cfg, nsim), rs)
+        behs = []
+        for (cfg_name, n_, rs, bs) in sim:
+            out.add_tlc('%s (-simulate num=%d depth=70)' % (cfg_name, n_), rs)
+            behs += bs
         reps = common.pmap(_replay_job, behs, init=_init, maxtasks=300)
         lap('replay behaviours')
         out.conformance['spec_to_code'] = {
@@ -1633,7 +1730,7 @@ def main(tier, seed, replay=None):
     bad_by_id = {t['id']: c for (t, c, _a) in mbad}
     drift_ids = {t['id'] for (t, _a) in mdrift}
     for mi, name in enumerate(mnames):
-        mine = mtraces[mi * len(msc):(mi + 1) * len(msc)]
+        mine = mtraces[mi * len(ssc):(mi + 1) * len(ssc)]
         ran = [t for t in mine if 'skipped' not in t]
         if not ran:
             out.sensitivity['mutant:' + name] = 'skipped (%s)' % (mine[0]['skipped'] if mine else 'no scenario')
